@@ -264,8 +264,17 @@ class Ctx:
 
 
 def load_known():
+    """known_findings.json (committed; never written at run time) + per-property
+    staging files findings/Cxx.json that are merged into it at integration"""
     with open(os.path.join(VERIF, 'known_findings.json')) as f:
-        return json.load(f)
+        out = json.load(f)
+    d = os.path.join(VERIF, 'findings')
+    if os.path.isdir(d):
+        for fn in sorted(os.listdir(d)):
+            if fn.endswith('.json'):
+                with open(os.path.join(d, fn)) as f:
+                    out += json.load(f)
+    return out
 
 
 def json_default(o):
